@@ -3,10 +3,25 @@
    The real video_filter_thread / process_data / accumulate / normalize are reached with
    #include "filter.c"; channel.c, frame_iterator.c, throttler.c and components.c are compiled unmodified
    from the working tree of the repository under test against harness/stubplat/platform.h.
+
+   A case is a HISTORY OF ONE struct video_filter_s: video_filter_init once, then one or more acquisitions,
+   each performed the way acquire.c does it, through the public functions only:
+       video_filter_configure(k)            (acquire_configure)
+       video_filter_start                   (acquire_start; the stub thread_create runs the thread function
+                                             it is handed -- the real video_filter_thread -- to completion)
+       the source writes its packets, raises is_stopping with the last one   (source.c, sig_source_stop_filter)
+       thread joined, the sink drains everything                             (acquire_stop)
+   on the SAME filter instance and the SAME two rings (never re-initialised: from the second acquisition on the
+   rings hold the previous acquisitions' frames).  With k <= 1 the source bypasses the filter as source.c does
+   (enable_filter = frame_average_count > 1): its frames go straight into the sink's ring (printed as B lines)
+   and the filter thread runs on an empty input.  Nothing here depends on the parameter list of process_data
+   or on where filter.c keeps its averaging state.
+
    The harness plays the two neighbours of the filter on one thread:
-     - the SOURCE: at every clock_sleep_ms (= throttler_wait, once per iteration of the thread's loop) it
-       writes the next scripted packet of frames into filter.in exactly as source.c does (write_map of the
-       8-byte aligned size, header, pixels, write_unmap) and raises is_stopping with the last packet;
+     - the SOURCE: right after thread_create (before the thread's first read) and then at every clock_sleep_ms
+       (= throttler_wait, once per iteration of the thread's loop) it writes the next scripted packet of
+       frames into filter.in exactly as source.c does (write_map of the 8-byte aligned size, header, pixels,
+       write_unmap) and raises is_stopping with the last packet of the acquisition;
      - the SINK: it is a registered reader of the output ring and drains it whenever the filter would block
        in channel_write_map (condition_variable_wait) and before every read of the filter.
    Both rings are small and PRE-FILLED WITH A NON-ZERO BYTE after channel_new, so the accumulator always
@@ -17,14 +32,19 @@
      f <type> <channels> <width> <height> <planes> <frame_id> <pixel bytes, hex | ->   source writes a frame
      r                                                                               raise sig_accumulator_reset
      p                                                                               packet boundary
+     acq <k>                         end of this acquisition (stop, join, drain); configure(k), start the next one
      end
    Output:
      NEW ...
+     A <i> k=<k>                     acquisition i begins (configure, start)
+     B bytes=.. id=.. ...            a frame the source wrote straight into the sink's ring (k <= 1), as drained
      S <n> reset=<0|1> ids=<..>      what one channel_read_map of process_data returned (interposed by macro)
      O bytes=.. id=.. type=.. dims=.. strides=.. px=<hex words>   # hw=.. ts=..      a frame drained from the sink ring
      T ecode=<rc> running=<..> stopping=<..> lockerr=<..>          video_filter_thread returned (printed after the
                                                                   frames committed by its last call and by Finalize)
      L <n> ids=<..>                                               input frames still unread in filter.in afterwards
+                                                                  (drained by the harness before the next acquisition)
+     A <i+1> k=<k'> ...
      END
 */
 #include <setjmp.h>
@@ -45,12 +65,18 @@ static struct op* ops = 0;
 static size_t nops = 0, capops = 0;
 static size_t* step_beg = 0; /* index of the first op of each step; nsteps+1 entries */
 static size_t nsteps = 0, capsteps = 0;
-static size_t cur_step = 0;
+static size_t cur_step = 0, step_end = 0; /* the running acquisition performs steps [cur_step, step_end) */
+static size_t* acq_beg = 0;               /* index of the first step of each acquisition; nacq+1 entries */
+static unsigned* acq_k = 0;
+static size_t nacq = 0, capacq = 0;
 
 static struct video_filter_s flt;
 static struct channel out;
 static struct channel_reader sink_reader;
 static int g_lock_err = 0, g_events = 0, g_stuck = 0, g_active = 0;
+static int g_in_thread = 0, g_thread_ran = 0, g_rc = 0, g_bypass = 0;
+static char g_tag = 'O';
+static void exec_step(size_t j);
 static jmp_buf g_case_abort;
 
 /* ------------------------------------------------------------------ platform stubs */
@@ -74,7 +100,25 @@ void event_set(struct event* e) { e->state = 1; }
 void event_wait(struct event* e) { (void)e; }
 void event_notify_all(struct event* e) { e->notified++; g_events++; }
 void thread_init(struct thread* t) { t->is_live = 0; }
-uint8_t thread_create(struct thread* t, void (*proc)(void*), void* args) { (void)t; (void)proc; (void)args; return 0; }
+/* the filter thread "is scheduled": the source has written its first packet; the thread function handed over by
+   video_filter_start runs to completion (the source's later packets arrive at the thread's throttler_wait) */
+uint8_t thread_create(struct thread* t, void (*proc)(void*), void* args)
+{
+    (void)t;
+    if (!g_active || !proc) return 1;
+    exec_step(cur_step);
+    if (cur_step + 1 >= step_end) ((struct video_filter_s*)args)->is_stopping = 1;
+    g_thread_ran = 1;
+    g_in_thread = 1;
+    if (proc == (void (*)(void*))video_filter_thread) {
+        g_rc = video_filter_thread((struct video_filter_s*)args);
+    } else {
+        proc(args);
+        g_rc = 0;
+    }
+    g_in_thread = 0;
+    return 1;
+}
 void thread_join(struct thread* t) { (void)t; }
 void aq_logger(int is_error, const char* file, int line, const char* function, const char* fmt, ...)
 {
@@ -84,8 +128,8 @@ void aq_logger(int is_error, const char* file, int line, const char* function, c
 /* ------------------------------------------------------------------ the sink */
 static void print_frame(const struct VideoFrame* f, size_t avail)
 {
-    printf("O bytes=%zu id=%llu type=%d dims=%u,%u,%u,%u strides=%lld,%lld,%lld,%lld px=",
-           f->bytes_of_frame, (unsigned long long)f->frame_id, (int)f->shape.type,
+    printf("%c bytes=%zu id=%llu type=%d dims=%u,%u,%u,%u strides=%lld,%lld,%lld,%lld px=",
+           g_tag, f->bytes_of_frame, (unsigned long long)f->frame_id, (int)f->shape.type,
            f->shape.dims.channels, f->shape.dims.width, f->shape.dims.height, f->shape.dims.planes,
            (long long)f->shape.strides.channels, (long long)f->shape.strides.width,
            (long long)f->shape.strides.height, (long long)f->shape.strides.planes);
@@ -155,6 +199,7 @@ void condition_variable_wait(struct condition_variable* self, struct lock* lock)
 /* ------------------------------------------------------------------ the filter's read side (interposed) */
 static struct slice h_read_map(struct channel* self, struct channel_reader* reader)
 {
+    if (!g_in_thread) return channel_read_map(self, reader); /* video_filter_start registering the reader */
     drain_out(); /* everything the previous call committed is printed before this call's S line */
     int reset = flt.sig_accumulator_reset != 0;
     struct slice s = channel_read_map(self, reader);
@@ -186,7 +231,7 @@ static void compute_strides(struct ImageShape* shape)
     for (int i = 1; i < 4; ++i) st[i] = st[i - 1] * dims[i - 1];
 }
 
-static void write_frame(const struct op* o)
+static void write_frame(const struct op* o, struct channel* ch)
 {
     struct ImageShape shape;
     memset(&shape, 0, sizeof shape);
@@ -198,7 +243,7 @@ static void write_frame(const struct op* o)
     if (sz != o->ndata) { printf("BADFRAME bytes_of_image=%zu data=%zu\n", sz, o->ndata); longjmp(g_case_abort, 1); }
     size_t nbytes = sizeof(struct VideoFrame) + sz;
     const size_t nbytes_aligned = 8 * ((nbytes + 7) / 8);
-    struct VideoFrame* im = (struct VideoFrame*)channel_write_map(&flt.in, nbytes_aligned);
+    struct VideoFrame* im = (struct VideoFrame*)channel_write_map(ch, nbytes_aligned);
     if (!im) { printf("INREFUSED %zu\n", nbytes_aligned); longjmp(g_case_abort, 1); }
     if (o->ndata) memcpy(im->data, o->data, o->ndata);
     *im = (struct VideoFrame){
@@ -209,15 +254,24 @@ static void write_frame(const struct op* o)
         .timestamps.hardware = 7000 + o->id,
         .timestamps.acq_thread = 9000 + o->id,
     };
-    channel_write_unmap(&flt.in);
+    channel_write_unmap(ch);
 }
 
 static void exec_step(size_t j)
 {
-    if (j >= nsteps) return;
+    if (j >= step_end) return;
+    if (g_bypass) {
+        /* source.c with enable_filter == 0: the frames go to the sink's ring, not to filter.in */
+        drain_out();
+        g_tag = 'B';
+    }
     for (size_t i = step_beg[j]; i < step_beg[j + 1]; ++i) {
-        if (ops[i].kind == 0) write_frame(&ops[i]);
+        if (ops[i].kind == 0) write_frame(&ops[i], g_bypass ? &out : &flt.in);
         else flt.sig_accumulator_reset = 1;
+    }
+    if (g_bypass) {
+        drain_out();
+        g_tag = 'O';
     }
 }
 
@@ -225,18 +279,29 @@ void clock_sleep_ms(struct clock* c, float delay_ms)
 {
     (void)c; (void)delay_ms;
     if (!g_active) return;
-    if (cur_step + 1 < nsteps) {
+    if (cur_step + 1 < step_end) {
         cur_step++;
         exec_step(cur_step);
     }
-    if (cur_step + 1 >= nsteps) flt.is_stopping = 1;
+    if (cur_step + 1 >= step_end) flt.is_stopping = 1;
 }
 
 /* ------------------------------------------------------------------ case driver */
 static void free_script(void)
 {
     for (size_t i = 0; i < nops; ++i) free(ops[i].data);
-    nops = 0; nsteps = 0;
+    nops = 0; nsteps = 0; nacq = 0;
+}
+
+static void push_acq(unsigned k)
+{
+    if (nacq + 2 > capacq) {
+        capacq = capacq ? 2 * capacq : 16;
+        acq_beg = realloc(acq_beg, capacq * sizeof *acq_beg);
+        acq_k = realloc(acq_k, capacq * sizeof *acq_k);
+    }
+    acq_k[nacq] = k;
+    acq_beg[nacq++] = nsteps;
 }
 
 static void push_step(void)
@@ -247,11 +312,12 @@ static void push_step(void)
 
 static int hexv(int c) { return c >= '0' && c <= '9' ? c - '0' : c >= 'a' && c <= 'f' ? c - 'a' + 10 : c >= 'A' && c <= 'F' ? c - 'A' + 10 : -1; }
 
-static void run_case(unsigned k, size_t incap, size_t outcap, unsigned prefill)
+static void run_case(size_t incap, size_t outcap, unsigned prefill)
 {
     volatile int inited = 0;
-    g_lock_err = 0; g_events = 0; g_stuck = 0; cur_step = 0;
-    step_beg[nsteps] = nops; /* sentinel */
+    g_lock_err = 0; g_events = 0; g_stuck = 0; cur_step = 0; g_tag = 'O'; g_in_thread = 0; g_bypass = 0;
+    step_beg[nsteps] = nops; /* sentinels */
+    acq_beg[nacq] = nsteps;
     if (setjmp(g_case_abort) == 0) {
         channel_new(&out, outcap);
         if (video_filter_init(&flt, 0, incap, &out) != Device_Ok) { printf("INITFAIL\n"); return; }
@@ -259,34 +325,43 @@ static void run_case(unsigned k, size_t incap, size_t outcap, unsigned prefill)
         memset(flt.in.data, (int)prefill, incap);   /* previously used ring memory */
         memset(out.data, (int)prefill, outcap);
         memset(&sink_reader, 0, sizeof sink_reader);
-        video_filter_configure(&flt, k);
         (void)channel_read_map(&out, &sink_reader);  /* the sink registers as a reader (empty read) */
-        g_active = 1;
-        exec_step(0);
-        flt.is_running = 1;
-        flt.is_stopping = nsteps <= 1;
-        int rc = video_filter_thread(&flt);
-        drain_out();   /* frames committed by the last call and by Finalize */
-        printf("T ecode=%d running=%d stopping=%d lockerr=%d\n", rc, (int)flt.is_running, (int)flt.is_stopping,
-               g_lock_err || out.lock.depth != 0 || flt.in.lock.depth != 0);
-        /* what is still unread in filter.in */
-        size_t left = 0;
-        printf("L ids=");
-        for (int guard = 0; guard < 4; ++guard) {
-            struct slice s = channel_read_map(&flt.in, &flt.reader);
-            if (!s.beg || s.end <= s.beg) {
-                if (flt.reader.state == ChannelState_Mapped) channel_read_unmap(&flt.in, &flt.reader, 0);
-                break;
+        for (size_t a = 0; a < nacq; ++a) {
+            /* one acquisition, as acquire.c performs it, on the same filter instance and rings */
+            printf("A %zu k=%u\n", a, acq_k[a]);
+            cur_step = acq_beg[a];
+            step_end = acq_beg[a + 1];
+            g_bypass = acq_k[a] <= 1;
+            g_lock_err = 0; g_stuck = 0;
+            video_filter_configure(&flt, acq_k[a]);
+            g_thread_ran = 0; g_rc = 0;
+            g_active = 1;
+            enum DeviceStatusCode started = video_filter_start(&flt); /* -> thread_create: source + the real thread */
+            g_active = 0;
+            if (!g_thread_ran) { printf("NOTHREAD start=%d\n", (int)started); break; }
+            thread_join(&flt.thread);
+            drain_out();   /* frames committed by the last call and by Finalize */
+            printf("T ecode=%d running=%d stopping=%d lockerr=%d\n", g_rc, (int)flt.is_running, (int)flt.is_stopping,
+                   g_lock_err || out.lock.depth != 0 || flt.in.lock.depth != 0);
+            /* what is still unread in filter.in */
+            size_t left = 0;
+            printf("L ids=");
+            for (int guard = 0; guard < 4; ++guard) {
+                struct slice s = channel_read_map(&flt.in, &flt.reader);
+                if (!s.beg || s.end <= s.beg) {
+                    if (flt.reader.state == ChannelState_Mapped) channel_read_unmap(&flt.in, &flt.reader, 0);
+                    break;
+                }
+                for (uint8_t* p = s.beg; p < s.end; p += ((struct VideoFrame*)p)->bytes_of_frame) {
+                    printf("%s%llu", left ? "," : "", (unsigned long long)((struct VideoFrame*)p)->frame_id);
+                    left++;
+                }
+                channel_read_unmap(&flt.in, &flt.reader, (size_t)(s.end - s.beg));
             }
-            for (uint8_t* p = s.beg; p < s.end; p += ((struct VideoFrame*)p)->bytes_of_frame) {
-                printf("%s%llu", left ? "," : "", (unsigned long long)((struct VideoFrame*)p)->frame_id);
-                left++;
-            }
-            channel_read_unmap(&flt.in, &flt.reader, (size_t)(s.end - s.beg));
+            printf("%s n=%zu\n", left ? "" : "-", left);
         }
-        printf("%s n=%zu\n", left ? "" : "-", left);
     }
-    g_active = 0;
+    g_active = 0; g_in_thread = 0;
     if (inited) {
         flt.in.lock.depth = 0; out.lock.depth = 0;
         video_filter_destroy(&flt);
@@ -308,10 +383,12 @@ int main(void)
     int have = 0;
     setvbuf(stdout, 0, _IOFBF, 1 << 16);
     push_step(); nsteps = 0;
+    push_acq(0); nacq = 0;
     while ((len = getline(&line, &cap, stdin)) > 0) {
         if (line[0] == '#' || line[0] == '\n') continue;
         if (sscanf(line, "new %u %llu %llu %x", &k, &incap, &outcap, &prefill) == 4) {
             free_script();
+            push_acq(k);
             push_step();
             have = 1;
             printf("NEW %u %llu %llu %02x\n", k, incap, outcap, prefill);
@@ -343,8 +420,11 @@ int main(void)
             ops[nops++] = o;
         } else if (line[0] == 'p') {
             push_step();
+        } else if (sscanf(line, "acq %u", &k) == 1) {
+            push_acq(k);
+            push_step();
         } else if (strncmp(line, "end", 3) == 0) {
-            run_case(k, (size_t)incap, (size_t)outcap, prefill);
+            run_case((size_t)incap, (size_t)outcap, prefill);
             free_script();
             have = 0;
         } else {
@@ -352,7 +432,7 @@ int main(void)
         }
     }
     free_script();
-    free(ops); free(step_beg); free(line);
+    free(ops); free(step_beg); free(acq_beg); free(acq_k); free(line);
     fflush(stdout);
     return 0;
 }
